@@ -190,6 +190,11 @@ def line_level_scenarios(tier, base):
         out += tscen.line_level(sp, "line", 2)
     for sp in sel:
         out += tscen.line_level(sp, "opcode", 8)
+    # TWO pre-emptions at source-line granularity (the second one at every event of either thread at which the other could
+    # run): some 10^5 executions per scenario, for three scenarios in which both calls work on one cid
+    for sp in sel:
+        if sp["name"] in ("s1A||s2A from empty", "d1||s2A from p1A", "d1||t1A from p1A"):
+            out += [dict(j, time_cap=2400) for j in tscen.line_level(sp, "line", 16, lbound=2)]
     return out
 
 
@@ -215,7 +220,8 @@ def main(tier):
         "2 threads: exhaustive up to commutation of independent steps (state caching + verified footprints); "
         "3 threads: pre-emption bound 2",
         "line level (engine L): every execution of two calls with at most ONE pre-emption, the pre-emption placed at every "
-        "source line of the package (thorough: every bytecode) and every visible operation of either thread",
+        "source line of the package (thorough: every bytecode) and every visible operation of either thread; thorough: for "
+        "three scenarios every execution with at most TWO pre-emptions at source-line granularity",
     ]
     return finish_t(rep, results)
 
